@@ -96,6 +96,14 @@ def textSplit (s : List Char) (allowBlank : Bool) : List Line :=
   let parts := splitNL s
   if !allowBlank && endsNL s then parts.dropLast else parts
 
+/-- `Text.split("\n", allow_blank=…)` as /repo has it since fix b61fef8: the pieces are built with `Text(...)` (control
+characters stripped) and the last one is popped when it is EMPTY and blanks are not allowed — which, beyond a text
+ending in the separator, also hits a last line made of stripped control characters only.  Returns the unstripped pieces
+that stay (stripping is applied by the caller). -/
+def textSplitC (s : List Char) (allowBlank : Bool) : List Line :=
+  let parts := splitNL s
+  if !allowBlank && s.contains '\n' && (stripCtl (parts.getLast?.getD [])).isEmpty then parts.dropLast else parts
+
 /-! ### Pygments `Lexer._preprocess_lexer_input` (what the lexer contract is stated against) -/
 
 /-- `text.replace('\r\n', '\n').replace('\r', '\n')` in one pass. -/
@@ -338,7 +346,7 @@ def selectedLines (skipRaises rangePop : Bool) (o : Opts) (found : Bool) (lex : 
   | .ok text =>
     let text := removeSuffixNL text
     -- `Text.split` builds every line with `Text(...)`, which strips BS/VT/FF/CR (nothing to strip without a lexer)
-    let lines := (textSplit text (!rangePop && o.lineRange.isSome)).map stripCtl
+    let lines := (textSplitC text (!rangePop && o.lineRange.isSome)).map stripCtl
     let lines := match o.lineRange with
       | some (_, e) => pySlice lines (lineOffset o) e
       | none => lines
